@@ -303,6 +303,10 @@ exit 0
 	writeFile(filepath.Join(h.work, "prod.sh"), `echo $$ >> "$2"
 cat "$1"
 `, 0o755)
+	writeFile(filepath.Join(h.work, "prodretry.sh"), `echo $$ >> "$2"
+if [ ! -e "$3" ]; then : > "$3"; echo "output of the failed first attempt"; echo "stderr of the failed first attempt" >&2; exit 1; fi
+cat "$1"
+`, 0o755)
 	writeFile(filepath.Join(h.work, "gate.sh"), `echo $$ >> "$2"
 i=0
 while [ ! -e "$1" ] && [ $i -lt 160 ]; do sleep 0.05; i=$((i+1)); done
